@@ -13,6 +13,7 @@ import (
 	"path/filepath"
 	"sort"
 	"strings"
+	"time"
 
 	"github.com/pdfcpu/pdfcpu/pkg/api"
 	"github.com/pdfcpu/pdfcpu/pkg/pdfcpu"
@@ -125,6 +126,26 @@ func (m *c39Model) Apply(s Step) bool {
 			}
 			h := sha256.Sum256(attContent(n))
 			m.Att[n] = hex.EncodeToString(h[:])
+		}
+		return true
+	case "att-session":
+		// several insertions and removals on one in-memory document, written once
+		if len(a.List) == 0 {
+			return false
+		}
+		m.Dup = nil
+		for _, o := range a.List {
+			n := o[1:]
+			_, present := m.Att[n]
+			switch {
+			case o[0] == '+' && !present:
+				h := sha256.Sum256(attContent(n))
+				m.Att[n] = hex.EncodeToString(h[:])
+			case o[0] == '-' && present:
+				delete(m.Att, n)
+			default:
+				return false
+			}
 		}
 		return true
 	case "att-remove":
@@ -263,6 +284,8 @@ func (c39Store) Valid(mm Model, s Step) bool {
 				return false
 			}
 		}
+	case "att-session":
+		return m.Clone().Apply(s)
 	case "att-remove":
 		present := 0
 		for _, n := range a.List {
@@ -413,6 +436,57 @@ func (c39Store) Gen(rng *rand.Rand, mm Model, aux string) Step {
 				return step("merge-in", c35Args{List: l, Val: fmt.Sprintf("%dx%d", 1+rng.IntN(3), 1+rng.IntN(3))})
 			}
 		}
+		if rng.IntN(7) == 0 && len(free) > 0 {
+			// one session through the context API: insertions and removals interleaved on the same
+			// in-memory tree (nodes split and collapse before any of them has been written)
+			cur := map[string]bool{}
+			for _, k := range present {
+				cur[k] = true
+			}
+			var ops, added []string
+			fr := append([]string{}, free...)
+			if rng.IntN(2) == 0 {
+				rng.Shuffle(len(fr), func(i, j int) { fr[i], fr[j] = fr[j], fr[i] })
+			}
+			for i, n := 0, 2+rng.IntN(9); i < n; i++ {
+				var have []string
+				for k := range cur {
+					if !strings.Contains(k, "\x01") {
+						have = append(have, k)
+					}
+				}
+				sort.Strings(have)
+				if len(have) > 0 && (len(fr) == 0 || rng.IntN(5) < 2) {
+					var k string
+					switch r := rng.IntN(4); {
+					case r == 0:
+						k = have[0]
+					case r == 1:
+						k = have[len(have)-1]
+					case r == 2 && len(added) > 0:
+						k = added[len(added)-1] // what this session inserted last
+						if !cur[k] {
+							k = have[rng.IntN(len(have))]
+						}
+					default:
+						k = have[rng.IntN(len(have))]
+					}
+					ops = append(ops, "-"+k)
+					delete(cur, k)
+				} else if len(fr) > 0 {
+					k := fr[0]
+					fr = fr[1:]
+					ops = append(ops, "+"+k)
+					added = append(added, k)
+					cur[k] = true
+				}
+			}
+			if len(ops) > 1 {
+				st := step("att-session", c35Args{List: ops})
+				st.NoFault = true
+				return st
+			}
+		}
 		switch r := rng.IntN(10); {
 		case r == 0 && len(present) > 0 && rng.IntN(2) == 0:
 			// duplicate key: the largest, the smallest or any present name is inserted again
@@ -521,10 +595,78 @@ func (c39Store) Exec(s Step, path, aux string) error {
 			files = append(files, f)
 		}
 		return api.AddAttachmentsFile(path, "", files, false, dsConf())
+	case "att-session":
+		return attSession(path, a.List)
 	case "att-remove":
 		return api.RemoveAttachmentsFile(path, "", a.List, dsConf())
 	}
 	return fmt.Errorf("harness: unknown op %s", s.Op)
+}
+
+// ShrinkStep proposes the step with one list element dropped (sessions and multi-name steps).
+func (c39Store) ShrinkStep(s Step) []Step {
+	if s.Op != "att-session" && s.Op != "att-add" && s.Op != "att-remove" {
+		return nil
+	}
+	var a c35Args
+	json.Unmarshal(s.Args, &a)
+	if len(a.List) < 2 {
+		return nil
+	}
+	var out []Step
+	for i := len(a.List) - 1; i >= 0; i-- {
+		b := a
+		b.List = append(append([]string{}, a.List[:i]...), a.List[i+1:]...)
+		c := step(s.Op, b)
+		c.NoFault, c.Fault = s.NoFault, s.Fault
+		out = append(out, c)
+	}
+	return out
+}
+
+// attSession applies "+name" / "-name" operations to one in-memory document through the context
+// API (the calls AddAttachmentsFile and RemoveAttachmentsFile make, without a write in between) and
+// writes the document once.
+func attSession(path string, ops []string) error {
+	b, err := os.ReadFile(path)
+	if err != nil {
+		return fmt.Errorf("harness: %w", err)
+	}
+	conf := dsConf()
+	conf.Cmd = model.ADDATTACHMENTS
+	ctx, err := api.ReadValidateAndOptimize(bytes.NewReader(b), conf)
+	if err != nil {
+		return err
+	}
+	mt := time.Now()
+	for _, o := range ops {
+		n := o[1:]
+		if o[0] == '+' {
+			if err := ctx.AddAttachment(model.Attachment{Reader: bytes.NewReader(attContent(n)), ID: n, ModTime: &mt}, false); err != nil {
+				return fmt.Errorf("session %s: %w", o, err)
+			}
+			continue
+		}
+		ok, err := ctx.RemoveAttachment(model.Attachment{ID: n})
+		if err != nil {
+			return fmt.Errorf("session %s: %w", o, err)
+		}
+		if !ok {
+			return fmt.Errorf("session %s: not removed", o)
+		}
+	}
+	var out bytes.Buffer
+	if err := api.Write(ctx, &out, conf); err != nil {
+		return err
+	}
+	tmp := path + ".session"
+	if err := os.WriteFile(tmp, out.Bytes(), 0644); err != nil {
+		return fmt.Errorf("harness: %w", err)
+	}
+	if err := os.Rename(tmp, path); err != nil {
+		return fmt.Errorf("harness: %w", err)
+	}
+	return nil
 }
 
 // ---- raw walker
